@@ -120,6 +120,11 @@ func (s *LocalSubscriber) Disconnect() {
 	s.outMutex.Lock()
 	defer s.outMutex.Unlock()
 
+	// Check again now that the lock is held: another goroutine may have disconnected the subscriber in the meantime
+	if atomic.LoadInt32(&s.disconnected) > 0 {
+		return
+	}
+
 	atomic.StoreInt32(&s.disconnected, 1)
 	close(s.out)
 }
